@@ -49,9 +49,9 @@ const T_PARAM: u32 = 128; const L_PARAM: u32 = 40;
 fn boudot_estimates(rp: &Value, a: &Integer, b: &Integer) -> Vec<(String, Integer)> {
     let mut out = Vec::new();
     let big_t = 2 * (T_PARAM + L_PARAM + 1) + (b - a).complete().significant_bits();
-    let sq = Integer::from((b - a).complete().sqrt_ref());
-    let aa = pow2(big_t) * a - pow2(L_PARAM + T_PARAM + big_t / 2 + 1) * &sq;
-    let bb = pow2(big_t) * b + pow2(L_PARAM + T_PARAM + big_t / 2 + 1) * &sq;
+    // the decomposition offsets the library uses: the scaled interval [2^T a, 2^T b] ([Boudot2000] 3.1.2)
+    let aa = pow2(big_t) * a;
+    let bb = pow2(big_t) * b;
     for side in ["a", "b"] {
         let ss = &rp["proof_of_tolerance"][format!("proof_of_square_{}", side)]["proof_ss"];
         let (d, c) = match (leaf_int(&ss["d"]), leaf_int(&ss["challenge"])) { (Some(d), Some(c)) if c > 0 => (d, c), _ => continue };
